@@ -47,3 +47,6 @@ Definition judge (names : list name) (fb : bool) (obs_pool : list byte) (obs_off
                     | Revert _ => 0
                     | _ => if bytes_eqb got want then 0 else 4
                     end) calls.
+
+(* 0 the model expects the entry to compile, 6 it does not (arm offset > 4095) *)
+Definition judge_limit (names : list name) : list N := [if entry_ok names then 0 else 6].
